@@ -6,7 +6,9 @@
 EXTENDS ToyMath, Json, IOUtils, TLC, FiniteSets
 Stride == atoi(IOEnv.GP_STRIDE)
 Alpha == <<0, 1, P - 1, 7, 12345>>
-Polys == UNION {[1..k -> 1..5] : k \in 1..4}
+\* k = 0: the polynomial without coefficients, the library's own representation of the zero polynomial (what interpolation of
+\* zeros and remove_leading_zeros return)
+Polys == UNION {[1..k -> 1..5] : k \in 0..4}
 Code(f) == FoldLeft(LAMBDA acc, i : acc * 5 + (f[i] - 1), Len(f), [i \in 1..Len(f) |-> i])
 ToPoly(f) == [i \in 1..Len(f) |-> Alpha[f[i]]]
 VARIABLE cs
@@ -36,7 +38,7 @@ Init == \/ \E f \in Polys, g \in Polys :
                       b |-> [i \in 1..(3 + (n % 5)) |-> Alpha[((i + n) % 4) + 2]],
                       k |-> Alpha[(n % 4) + 2], da |-> (n % 4) + 1, db |-> IF sd = 1 THEN 1 ELSE Alpha[3 + (n % 3)],
                       npts |-> IF sd = 1 THEN n ELSE (n \div 2) + 1, zx |-> (n + lz) % 3]
-        \/ \E len \in {1, 2, 3, 16, 1023, 1024, 1025, 2048}, zpos \in {0, 1, 2} :
+        \/ \E len \in {0, 1, 2, 3, 16, 1023, 1024, 1025, 2048}, zpos \in {0, 1, 2} :
               cs = [kind |-> "vectors", len |-> len, zeros |-> zpos]
 Next == UNCHANGED cs
 Emit == PrintT(ToJson(cs))
